@@ -390,6 +390,21 @@ func genC19(g *Rng, tier string, emit func(Op)) {
 	for _, x := range []int64{0, 1, 2, 3, 4, 5, 7, 9, 11, 13, 23, 47, 59, 83, 107, 561, 1105, 1729, 2465, 2047, 3277, 4033} {
 		emit(Op{"op": "safeprime", "class": "fixed", "x": hxi(x)})
 	}
+	// every size in a range that covers all residues of the size modulo 8 (the top byte of a
+	// candidate has 1..8 significant bits): the result has exactly the requested length
+	for bits := 9; bits <= 72; bits++ {
+		for k := 0; k < 4; k++ {
+			sp, err := safeprime.Generate(bits, nil)
+			if err != nil {
+				panic(err)
+			}
+			if sp.BitLen() != bits {
+				emit(Op{"op": "safeprime", "class": "generated-size-sweep", "key": "safeprime-size", "label": "never", "x": hx(sp), "bits": bits, "bitlen": sp.BitLen()})
+			} else if k == 0 {
+				emit(Op{"op": "safeprime", "class": "generated-sweep", "label": "true", "x": hx(sp), "bits": bits, "bitlen": sp.BitLen()})
+			}
+		}
+	}
 	nsp := 6
 	if thorough {
 		nsp = 60
